@@ -1390,3 +1390,236 @@ Proof.
       rewrite app_length in Q. cbn in Q. lia.
   - rewrite Ee. intro Q. injection Q as _ Q _. exfalso. apply (f_equal (@length perr)) in Q. rewrite app_length in Q. cbn in Q. lia.
 Qed.
+
+Lemma NextToken_any text l : ~ In EOFR text -> LInv text l -> QI l -> nt_ok l (NextToken (lex_fuel l) l).
+Proof.
+  intros NE (HI & HE & HS) Q. pose proof Q as (S & L1 & L2).
+  destruct (items l) as [|t r] eqn:E.
+  - destruct S as [S|S].
+    + unfold SInv in HS. rewrite S in HS.
+      apply (NextToken_total text NE (length (after (cu l))) (after (cu l)) l); [lia| |unfold lex_fuel; lia].
+      split; [exact S|split; [exact E|split; [exact HS|reflexivity]]].
+    + rewrite (NextToken_done _ _ E S). exists None, l. split; [reflexivity|]. split; [exact Q|split; assumption].
+  - apply deliver; [exact S|left; rewrite E; discriminate|rewrite E; exact L1|rewrite E; exact L2|lia|lia].
+Qed.
+
+(* ---- the parser ---- *)
+Definition PQ (text : str) (p : parser) : Prop := LInv text (lx p) /\ QI (lx p).
+Definition psi (p : parser) : nat := (length (toks p) + nu2 (lx p))%nat.
+Definition same_frame (p p' : parser) : Prop := oof p' = oof p.
+
+Lemma nu_bound l : QI l -> (nu l <= length (after (cu l)) + 9)%nat.
+Proof. intros (_ & L & _). unfold nu, maxErrors in *. destruct (state l); lia. Qed.
+Lemma nu2_bound l : QI l -> (nu2 l <= length (after (cu l)) + 1)%nat.
+Proof. intros (_ & _ & L). unfold nu2, lrest. destruct (state l); lia. Qed.
+
+Lemma raw_next_total text : ~ In EOFR text -> forall fuel p, PQ text p -> (nu (lx p) < fuel)%nat ->
+  exists r p', raw_next fuel p = (r, p') /\ oof p' = oof p /\ toks p' = toks p /\ PQ text p' /\
+    (nu2 (lx p') + match r with Some _ => 1 | None => 0 end <= nu2 (lx p))%nat.
+Proof.
+  intros NE. induction fuel as [|f IH]; intros p [HL HQ] Hf; [lia|]. cbn [raw_next].
+  destruct (NextToken_any text (lx p) NE HL HQ) as (r & l' & E & Q' & M). rewrite E.
+  pose proof (proj1 (NextToken_inv text _ _ _ _ HL E)) as HL'.
+  destruct r as [t|].
+  - destruct M as [M1 M2]. destruct (is_TError t) eqn:Et.
+    + destruct (IH (with_lx p l') (conj HL' Q') ltac:(cbn [with_lx lx]; lia)) as (r & p' & E2 & A & B & C & D).
+      exists r, p'. split; [exact E2|]. split; [exact A|]. split; [exact B|]. split; [exact C|]. cbn [with_lx lx] in D.
+      unfold tok_cost in M2. rewrite Et in M2. lia.
+    + exists (Some t), (with_lx p l'). split; [reflexivity|]. split; [reflexivity|]. split; [reflexivity|]. split; [split; assumption|].
+      cbn [with_lx lx]. unfold tok_cost in M2. rewrite Et in M2. lia.
+  - destruct M as [M1 M2]. exists None, (with_lx p l'). split; [reflexivity|]. split; [reflexivity|]. split; [reflexivity|].
+    split; [split; assumption|]. cbn [with_lx lx]. unfold nu2, lrest. rewrite M1, M2. cbn. lia.
+Qed.
+
+Lemma raw_total text p : ~ In EOFR text -> PQ text p ->
+  exists r p', raw p = (r, p') /\ oof p' = oof p /\ toks p' = toks p /\ PQ text p' /\
+    (nu2 (lx p') + match r with Some _ => 1 | None => 0 end <= nu2 (lx p))%nat.
+Proof.
+  intros NE HP. apply raw_next_total; auto. unfold raw_fuel. pose proof (nu_bound _ (proj2 HP)). lia.
+Qed.
+
+Lemma PQ_toks text p ts : PQ text p -> PQ text (with_toks p ts).
+Proof. intro H; exact H. Qed.
+
+Lemma concat_loop_total text : ~ In EOFR text -> forall fuel t p, PQ text p -> (nu2 (lx p) + 1 <= 2 * fuel)%nat ->
+  exists r p', concat_loop fuel t p = (r, p') /\ oof p' = oof p /\ PQ text p' /\ (psi p' <= psi p)%nat.
+Proof.
+  intros NE. induction fuel as [|f IH]; intros t p HP Hf; [lia|]. cbn [concat_loop].
+  destruct (raw_total text p NE HP) as (nt & p1 & E1 & O1 & T1 & HP1 & M1). rewrite E1.
+  destruct nt as [nt'|]; [|exists (Some t), p1; split; [reflexivity|split; [exact O1|split; [exact HP1|unfold psi; rewrite T1; lia]]]].
+  destruct (is_TUnquoted nt' && str_eqb (t_text nt') s_plus).
+  - destruct (raw_total text p1 NE HP1) as (nnt & p2 & E2 & O2 & T2 & HP2 & M2). rewrite E2.
+    destruct nnt as [nnt'|].
+    + destruct (is_TString nnt').
+      * destruct (IH (set_text t (t_text t ++ t_text nnt')) p2 HP2 ltac:(lia)) as (r & p' & E3 & O3 & HP3 & M3).
+        exists r, p'. split; [exact E3|]. split; [congruence|]. split; [exact HP3|]. unfold psi in *. rewrite T2, T1 in M3. lia.
+      * eexists _, _. split; [reflexivity|]. split; [cbn [with_toks oof]; congruence|]. split; [exact HP2|].
+        unfold psi. cbn [with_toks toks lx length]. rewrite T2, T1. lia.
+    + eexists _, _. split; [reflexivity|]. split; [cbn [with_toks oof]; congruence|]. split; [exact HP2|].
+      unfold psi. cbn [with_toks toks lx length]. rewrite T2, T1. lia.
+  - eexists _, _. split; [reflexivity|]. split; [cbn [with_toks oof]; congruence|]. split; [exact HP1|].
+    unfold psi. cbn [with_toks toks lx length]. rewrite T1. lia.
+Qed.
+
+Lemma pnext_total text p : ~ In EOFR text -> PQ text p ->
+  exists r p', pnext p = (r, p') /\ oof p' = oof p /\ PQ text p' /\
+    (psi p' + match r with Some _ => 1 | None => 0 end <= psi p)%nat.
+Proof.
+  intros NE HP. unfold pnext. destruct (toks p) as [|t ts] eqn:Et.
+  - destruct (raw_total text p NE HP) as (r & p1 & E1 & O1 & T1 & HP1 & M1). rewrite E1.
+    destruct r as [t'|]; [|exists None, p1; split; [reflexivity|split; [exact O1|split; [exact HP1|unfold psi; rewrite T1, Et; lia]]]].
+    destruct (is_TString t').
+    + pose proof (nu2_bound _ (proj2 HP1)) as B.
+      destruct (concat_loop_total text NE (S (length (after (cu (lx p1))))) t' p1 HP1 ltac:(lia)) as (r & p' & E2 & O2 & HP2 & M2).
+      destruct (concat_loop_code _ _ _ _ _ E2) as (t'' & -> & _).
+      exists (Some t''), p'. split; [exact E2|]. split; [congruence|]. split; [exact HP2|]. unfold psi in *. rewrite T1, Et in *. cbn [length] in *. lia.
+    + exists (Some t'), p1. split; [reflexivity|]. split; [exact O1|]. split; [exact HP1|]. unfold psi. rewrite T1, Et. lia.
+  - exists (Some t), (with_toks p ts). split; [reflexivity|]. split; [reflexivity|]. split; [exact HP|].
+    unfold psi. cbn [with_toks toks lx]. rewrite Et. cbn [length]. lia.
+Qed.
+
+Definition ns_ok (text : str) (p : parser) (res : sres * parser) : Prop :=
+  oof (snd res) = oof p /\ PQ text (snd res) /\ (psi (snd res) <= psi p)%nat /\
+  (fst res <> RNil -> (psi (snd res) + 1 <= psi p)%nat).
+
+Lemma subs_loop_total text ns mk : (forall p, PQ text p -> ns_ok text p (ns p)) ->
+  forall n p acc, PQ text p -> (psi p < n)%nat ->
+  oof (snd (subs_loop ns mk n p acc)) = oof p /\ PQ text (snd (subs_loop ns mk n p acc)) /\
+  (psi (snd (subs_loop ns mk n p acc)) <= psi p)%nat.
+Proof.
+  intros Hns. induction n as [|n IH]; intros p acc HP Hn; [lia|]. cbn [subs_loop].
+  destruct (Hns p HP) as (O1 & HP1 & M1 & M2). destruct (ns p) as [r p1]. cbn [fst snd] in *.
+  destruct r; cbn [snd]; try (split; [exact O1|split; [exact HP1|exact M1]]).
+  - specialize (M2 ltac:(discriminate)). destruct (IH p1 (Stmt [] false [] 0 0 0 [] :: acc) HP1 ltac:(lia)) as (A & B & C).
+    split; [congruence|split; [exact B|lia]].
+  - specialize (M2 ltac:(discriminate)). destruct (IH p1 (s :: acc) HP1 ltac:(lia)) as (A & B & C).
+    split; [congruence|split; [exact B|lia]].
+Qed.
+
+Lemma PQ_frame text p p' : lx p' = lx p -> PQ text p -> PQ text p'.
+Proof. unfold PQ. intros ->. auto. Qed.
+(* adding an error to errout or toggling inPattern does not touch what the measures look at *)
+Lemma QI_same l l' : items l' = items l -> state l' = state l -> QI l -> QI l'.
+Proof. unfold QI. intros -> ->. auto. Qed.
+
+Lemma nextStatement_total text : ~ In EOFR text -> forall f p, PInv text p -> QI (lx p) -> (psi p < f)%nat ->
+  ns_ok text p (nextStatement f p) /\ PInv text (snd (nextStatement f p)).
+Proof.
+  intros NE. induction f as [|f IH]; intros p HPI HQ Hf; [lia|].
+  rewrite nextStatement_eq.
+  assert (HP : PQ text p) by (split; [apply HPI|exact HQ]).
+  destruct (pnext_total text p NE HP) as (t & p1 & E1 & O1 & HP1 & M1). rewrite E1.
+  destruct (pnext_inv text _ _ _ HPI E1) as [HPI1 Ht].
+  destruct t as [t|]; [|split; [split; [exact O1|split; [exact HP1|cbn [fst snd]; split; [lia|intro Q; contradiction]]]|exact HPI1]].
+  assert (Done : forall r p2, lx p2 = lx p1 -> toks p2 = toks p1 -> oof p2 = oof p1 ->
+                 ns_ok text p (r, p2) /\ PInv text p2).
+  { intros r p2 El Et Eo. split; [|split; [rewrite El; apply HPI1|rewrite Et; apply HPI1]].
+    split; [cbn [snd]; congruence|]. split; [apply (PQ_frame text p1); assumption|].
+    unfold psi in *. cbn [snd fst]. rewrite El, Et. split; [lia|intros _; lia]. }
+  destruct (is_TChar cRB t); [apply Done; reflexivity|].
+  destruct (negb (is_TUnquoted t)) eqn:Hu.
+  { assert (HPIe : PInv text (add_err p1 (tok_pos t) EKeywordNotUnquoted (Some (t_off t)))).
+    { apply add_err_inv; [exact HPI1|]. apply err_ok_intro. apply (Ht _ eq_refl). }
+    split; [|exact HPIe].
+    split; [cbn [snd]; exact O1|]. split; [split; [apply HPIe|exact (proj2 HP1)]|].
+    unfold psi in *. cbn [snd fst add_err with_lx lx toks]. unfold nu2, lrest in *. cbn [items state cu]. split; [lia|intros _; lia]. }
+  unfold ns_tail. cbv zeta.
+  pose proof (with_inPattern_inv text p1 (str_eqb (t_text t) s_pattern) HPI1) as HPI2.
+  set (p2 := with_lx p1 (with_inPattern (lx p1) (str_eqb (t_text t) s_pattern))) in *.
+  assert (HP2 : PQ text p2) by (split; [apply HPI2|exact (proj2 HP1)]).
+  destruct (pnext_total text p2 NE HP2) as (t2 & p3 & E3 & O3 & HP3 & M3). rewrite E3.
+  destruct (pnext_inv text _ _ _ HPI2 E3) as [HPI3 Ht2].
+  pose proof (with_inPattern_inv text p3 false HPI3) as HPI4.
+  set (p4 := with_lx p3 (with_inPattern (lx p3) false)) in *.
+  assert (HP4 : PQ text p4) by (split; [apply HPI4|exact (proj2 HP3)]).
+  assert (Psi2 : psi p2 = psi p1) by reflexivity.
+  assert (Psi4 : psi p4 = psi p3) by reflexivity.
+  assert (Oo : oof p4 = oof p) by (cbn [p4 p2 with_lx oof] in *; congruence).
+  assert (Tail : forall has arg t3 p5, PInv text p5 -> QI (lx p5) -> oof p5 = oof p -> (psi p5 + 1 <= psi p)%nat ->
+            (forall t', t3 = Some t' -> tok_ok text t') ->
+            let res := match t3 with
+              | None => (RNil, add_err p5 None EUnexpectedEOF None)
+              | Some t3 =>
+                if is_TChar cSEMI t3 then (RStmt (Stmt (t_text t) has arg (t_line t) (t_col t) (t_off t) []), p5)
+                else if is_TChar cLB t3 then
+                  subs_loop (nextStatement f) (fun l => Stmt (t_text t) has arg (t_line t) (t_col t) (t_off t) l) f
+                    {| lx := lx p5; toks := toks p5; depth := depth p5 + 1; hb_line := hb_line p5;
+                       hb_col := hb_col p5; hb_off := hb_off p5; oof := oof p5 |} []
+                else (RIgnore, add_err p5 (tok_pos t3) ESyntax (Some (t_off t3)))
+              end in ns_ok text p res /\ PInv text (snd res)).
+  { intros has arg t3 p5 HPI5 HQ5 O5 M5 Ht3. cbv zeta.
+    assert (Err : forall r pos k subj, err_ok text {| e_pos := pos; e_kind := k; e_subject := subj |} ->
+                  ns_ok text p (r, add_err p5 pos k subj) /\ PInv text (add_err p5 pos k subj)).
+    { intros r pos k subj He. pose proof (add_err_inv text p5 pos k subj HPI5 He) as HPIe. split; [|exact HPIe].
+      split; [exact O5|]. split; [split; [apply HPIe|exact HQ5]|].
+      unfold psi in *. cbn [snd fst add_err with_lx lx toks]. unfold nu2, lrest in *. cbn [items state cu]. split; [lia|intros _; lia]. }
+    destruct t3 as [t3|]; [|apply Err; exact I].
+    destruct (is_TChar cSEMI t3).
+    { split; [|exact HPI5]. split; [exact O5|]. split; [split; [apply HPI5|exact HQ5]|]. cbn [fst snd]. split; [lia|intros _; lia]. }
+    destruct (is_TChar cLB t3); [|apply Err; apply err_ok_intro; apply (Ht3 _ eq_refl)].
+    set (p6 := Build_parser _ _ _ _ _ _ _).
+    assert (HPI6 : PInv text p6) by exact HPI5.
+    assert (Hns : forall q, PQ text q -> True) by auto.
+    (* the statements of the block are read with fuel f, which exceeds what is left *)
+    assert (Hf6 : (psi p6 < f)%nat) by (change (psi p6) with (psi p5); lia).
+    assert (Loop : forall n q acc, PInv text q -> QI (lx q) -> (psi q < n)%nat -> (psi q < f)%nat ->
+              let res := subs_loop (nextStatement f) (fun l => Stmt (t_text t) has arg (t_line t) (t_col t) (t_off t) l) n q acc in
+              oof (snd res) = oof q /\ PInv text (snd res) /\ QI (lx (snd res)) /\ (psi (snd res) <= psi q)%nat).
+    { induction n as [|n IHn]; intros q acc HPIq HQq Hn Hfq; [lia|]. cbn [subs_loop].
+      destruct (IH q HPIq HQq Hfq) as ((A1 & A2 & A3 & A4) & A5). destruct (nextStatement f q) as [r q1]. cbn [fst snd] in *.
+      destruct r; cbn [snd]; try (split; [exact A1|split; [exact A5|split; [apply A2|exact A3]]]).
+      - specialize (A4 ltac:(discriminate)). destruct (IHn q1 (Stmt [] false [] 0 0 0 [] :: acc) A5 (proj2 A2) ltac:(lia) ltac:(lia)) as (B1 & B2 & B3 & B4).
+        split; [congruence|split; [exact B2|split; [exact B3|lia]]].
+      - specialize (A4 ltac:(discriminate)). destruct (IHn q1 (s :: acc) A5 (proj2 A2) ltac:(lia) ltac:(lia)) as (B1 & B2 & B3 & B4).
+        split; [congruence|split; [exact B2|split; [exact B3|lia]]]. }
+    destruct (Loop f p6 [] HPI6 HQ5 Hf6 Hf6) as (B1 & B2 & B3 & B4).
+    split; [|exact B2]. split; [rewrite B1; exact O5|]. split; [split; [apply B2|exact B3]|].
+    change (psi p6) with (psi p5) in B4. split; [lia|intros _; lia]. }
+  destruct t2 as [a|].
+  - destruct (is_TString a || is_TUnquoted a).
+    + destruct (pnext_total text p4 NE HP4) as (t3 & p5 & E5 & O5 & HP5 & M5). rewrite E5.
+      destruct (pnext_inv text _ _ _ HPI4 E5) as [HPI5 Ht3].
+      apply (Tail true (t_text a) t3 p5 HPI5 (proj2 HP5)); [congruence| |exact Ht3].
+      rewrite Psi4, Psi2 in *. lia.
+    + apply (Tail false [] (Some a) p4 HPI4 (proj2 HP4) Oo); [rewrite Psi4, Psi2 in *; lia|exact Ht2].
+  - apply (Tail false [] None p4 HPI4 (proj2 HP4) Oo); [rewrite Psi4, Psi2 in *; lia|discriminate].
+Qed.
+
+Lemma parse_loop_total text fuel : ~ In EOFR text -> forall n p acc, PInv text p -> QI (lx p) -> (psi p < n)%nat -> (psi p < fuel)%nat ->
+  oof (snd (parse_loop fuel n p acc)) = oof p.
+Proof.
+  intros NE. induction n as [|n IH]; intros p acc HPI HQ Hn Hf; [lia|]. cbn [parse_loop].
+  destruct (nextStatement_total text NE fuel p HPI HQ Hf) as ((A1 & A2 & A3 & A4) & A5).
+  destruct (nextStatement_inv text fuel p _ _ HPI (surjective_pairing _)) as (_ & Hb & _).
+  destruct (nextStatement fuel p) as [r p1]. cbn [fst snd] in *.
+  destruct r; cbn [snd]; try exact A1.
+  - specialize (A4 ltac:(discriminate)).
+    rewrite IH; [exact A1| | | |].
+    + apply add_err_inv; [exact A5|]. apply err_ok_intro. apply Hb. reflexivity.
+    + exact (proj2 A2).
+    + change (psi (add_err p1 _ _ _)) with (psi p1). lia.
+    + change (psi (add_err p1 _ _ _)) with (psi p1). lia.
+  - specialize (A4 ltac:(discriminate)). rewrite IH; [exact A1|exact A5|exact (proj2 A2)|lia|lia].
+  - specialize (A4 ltac:(discriminate)). rewrite IH; [exact A1|exact A5|exact (proj2 A2)|lia|lia].
+Qed.
+
+Theorem Parse_fuel_sufficient input ss es o : ~ In EOFR input -> Parse input = (ss, es, o) -> o = false.
+Proof.
+  intros NE0 H. set (T := terminated input).
+  assert (NE : ~ In EOFR T).
+  { intro Q. destruct (terminated_in _ _ Q) as [Q'|Q']; [exact (NE0 Q')|vm_compute in Q'; discriminate Q']. }
+  assert (Hpsi : (psi (newParser input) < parse_fuel input)%nat).
+  { unfold psi, nu2, lrest, parse_fuel. cbn [newParser toks lx newLexer items state cu after length]. change (nonerr []) with O.
+    pose proof (terminated_length input) as Q. unfold terminated in Q. lia. }
+  assert (HQ : QI (lx (newParser input))).
+  { split; [left; reflexivity|]. cbn. unfold maxErrors. split; lia. }
+  pose proof (parse_loop_total T (parse_fuel input) NE (parse_fuel input) (newParser input) [] (newParser_inv input) HQ Hpsi Hpsi) as E.
+  unfold Parse in H. cbv zeta in H.
+  destruct (parse_loop (parse_fuel input) (parse_fuel input) (newParser input) []) as [ss0 p]. cbn [snd] in E.
+  change (oof (newParser input)) with false in E.
+  assert (E' : oof (match errs (lx p) with
+                    | [] => if depth p =? 0 then p else add_err p (Some (line (cu (lx p)), col (cu (lx p)))) EMissingBraces None
+                    | _ :: _ => p end) = false).
+  { destruct (errs (lx p)); [destruct (depth p =? 0)|]; exact E. }
+  match type of H with context [errs (lx ?q)] => destruct (errs (lx q)) end; injection H as _ _ <-; exact E'.
+Qed.
